@@ -11,26 +11,8 @@ use std::collections::BTreeSet;
 use std::sync::Arc;
 use vfs::{EmbeddedFS, PhysicalFS, VfsPath};
 
-/// independent model: raw std::fs walk of the fixture folder
 fn raw_model() -> Tree {
-    fn walk(dir: &std::path::Path, prefix: &str, t: &mut Tree) {
-        let mut entries: Vec<_> = std::fs::read_dir(dir).unwrap().filter_map(|e| e.ok()).collect();
-        entries.sort_by_key(|e| e.file_name());
-        for e in entries {
-            let name = e.file_name().to_string_lossy().into_owned();
-            let p = format!("{}/{}", prefix, name);
-            let ft = e.file_type().unwrap();
-            if ft.is_dir() {
-                t.m.insert(p.clone(), Node::Dir);
-                walk(&e.path(), &p, t);
-            } else {
-                t.m.insert(p, Node::File(Arc::new(std::fs::read(e.path()).unwrap())));
-            }
-        }
-    }
-    let mut t = Tree::new();
-    walk(&fixture_dir(), "", &mut t);
-    t
+    crate::embed::fixture_tree()
 }
 
 /// the exhaustive path set: every entry, the root, near-misses, paths below files, case variants
